@@ -28,7 +28,7 @@ TRUSTED = ['modelled not verified: CPython float arithmetic = IEEE-754 binary64 
            'computes is given to the model as a hint and accepted only within one ulp)',
            'axioms (only under the C12_float_* theorems; the C12_exact_* theorems are closed '
            'under the global context): Coq standard library FloatAxioms (Prim2SF_valid, SF2Prim_Prim2SF, Prim2SF_SF2Prim, '
-           'add_spec, abs_spec, eqb_spec, div_spec, ltb_spec, sub_spec, mul_spec, sqrt_spec, of_uint63_spec: the specification of the primitive binary64 '
+           'add_spec, abs_spec, eqb_spec, leb_spec, Leibniz.eqb_spec, div_spec, ltb_spec, sub_spec, mul_spec, opp_spec, sqrt_spec, next_up_spec, next_down_spec, ldshiftexp_spec, frshiftexp_spec, of_uint63_spec: the specification of the primitive binary64 '
            'operations, used by Flocq IEEE754.PrimFloat), the standard library axioms specifying the primitive 63-bit '
            'integers (Uint63.add_spec, sub_spec, eqb_correct, eqb_refl, leb_spec, ltb_spec, lor_spec, lsl_spec, lsr_spec, '
            'of_to_Z: float(count) goes through of_uint63) and the axioms of Reals (ClassicalDedekindReals.sig_forall_dec, '
@@ -565,7 +565,7 @@ def coq_model_expr(case):
 
 
 CLAIM = {
-    'text': 'PARTIAL. Proved in Coq (closed under the global context), for every list of rationals (hence for the '
+    'text': 'Proved in Coq (closed under the global context), for every list of rationals (hence for the '
             'exact values of any finite float/int sequence), on the single generic transliteration of the '
             'accumulators (Math/Exact.v) instantiated at exact arithmetic Qc: every running value of sum is the sum '
             'of the items seen so far, of mean the sum divided by the count, of min/max a minimum/maximum of the '
@@ -592,13 +592,18 @@ CLAIM = {
             'Fb_k/(k-1)(1+u)+u*ssd_k/(k-1)+eta of the exact sample variance: relative error proportional to machine epsilon, '
             'the count and the conditioning (A*R/variance, R^2/variance). stddev = sqrt of that '
             'variance, one more correctly rounded operation without underflow term: |stddev_k - sqrt(var_k)| <= '
-            'sqrt(V_k)(1+u) + u*sqrt(var_k), V_k the variance bound; 0.0 exactly for one item. NOT proved: the binary64 error of the '
-            'two-pass formal variance/stddev - it is TESTED by the oracle against exact rational arithmetic on every '
-            'prefix with the explicit bound given in `rule`.',
+            'sqrt(V_k)(1+u) + u*sqrt(var_k), V_k the variance bound; 0.0 exactly for one item. The two-pass formal.variance / '
+            'formal.stddev: CPython builtin sum (Neumaier) analysed through Fast2Sum exactness (the compensation term of a '
+            'step IS its rounding error): |pysum - sum x| <= u|sum x| + (1+u)((1+u)^(n-1)-1) u (n-1)(1+u)^(n-1) sum|x| (second '
+            'order); then mean, deviations, squares (a hinted square within one ulp: 4u d^2 + 4 eta), sum, division: explicit '
+            'bound fvar_bound on |v - popvar| at completion and for every streaming value, stddev likewise '
+            '(C12_float_formal_*). NOT proved: int items mixed with floats in the binary64 theorems (tested by the oracle against '
+            'exact rational arithmetic on every prefix with the explicit bound given in `rule`); the bounds are a-priori bounds, '
+            'not the sharpest known constants.',
     'note': 'Trusted: Coq kernel+VM incl. primitive 63-bit integers and binary64 floats (evaluation only; no '
             'C12_exact_* theorem depends on them). The C12_float_* theorems depend on '
             'standard-library axioms: FloatAxioms.{Prim2SF_valid, SF2Prim_Prim2SF, Prim2SF_SF2Prim, add_spec, abs_spec, '
-            'eqb_spec, div_spec, ltb_spec, sub_spec, mul_spec, sqrt_spec, of_uint63_spec}, Uint63.{add_spec, sub_spec, eqb_correct, eqb_refl, leb_spec, '
+            'eqb_spec, leb_spec, Leibniz.eqb_spec, div_spec, ltb_spec, sub_spec, mul_spec, opp_spec, sqrt_spec, next_up_spec, next_down_spec, ldshiftexp_spec, frshiftexp_spec, of_uint63_spec}, Uint63.{add_spec, sub_spec, eqb_correct, eqb_refl, leb_spec, '
             'ltb_spec, lor_spec, lsl_spec, lsr_spec, of_to_Z} and the Reals axioms ClassicalDedekindReals.sig_forall_dec, ClassicalDedekindReals.sig_not_dec, '
             'Classical_Prop.classic, FunctionalExtensionality.functional_extensionality_dep (via Flocq 4.1.0); hand-written generic model of rxsci/math/*.py tied by correspondence only; CPython '
             'float semantics, float(int) below 2^53, builtin sum (Neumaier) and math.sqrt are modelled; libm pow(x,2.0) '
